@@ -447,7 +447,7 @@ Qed.
 
 Lemma batch_txns_spec : forall d now batch pl txns,
     Forall (pend_ok d now) pl -> batch_txns batch pl = Some txns ->
-    Forall (fun x => exists t, t <= now /\ Forall (cmd_at d t) (fst x)) txns.
+    Forall (fun x => exists t, t <= now /\ Forall (cmd_at d t) (fst x) /\ txn_shape (fst x)) txns.
 Proof.
   induction batch as [|e batch IH]; intros pl txns Hp H; cbn in H.
   - inversion H; constructor.
@@ -530,7 +530,7 @@ Proof.
   destruct (c_fifo cfg && negb (fifo_ok batch (s_pend s))); [discriminate|].
   pose proof (batch_txns_spec _ _ _ _ _ HP Eb) as Ht.
   assert (Hacc : Forall (fun x => sub_accepts (fst x)) txns).
-  { eapply Forall_impl; [|exact Ht]. intros x [t [_ Hx]]. eapply sub_at_accepts; exact Hx. }
+  { eapply Forall_impl; [|exact Ht]. intros x [t [_ [Hx _]]]. eapply sub_at_accepts; exact Hx. }
   destruct (exec_batch (s_db s) txns) as [[d' rss]|] eqn:Ee; inversion H; subst; clear H; unfold SInv; cbn.
   - destruct (exec_batch_spec _ _ _ _ U Hacc Ee) as [L [U' R]].
     split; [exact U'|]. split; [|split; [|exact ND]].
@@ -635,7 +635,7 @@ Qed.
 (* the transactions of an executed batch *)
 Lemma exec_obs : forall cfg s batch s' ob,
     SInv s -> step cfg s (DExec batch) = Some (s', ob) ->
-    exists txns, Forall (fun x => exists t, t <= s_now s /\ Forall (cmd_at (s_db s) t) (fst x)) txns /\
+    exists txns, Forall (fun x => exists t, t <= s_now s /\ Forall (cmd_at (s_db s) t) (fst x) /\ txn_shape (fst x)) txns /\
                  ((exists rss, exec_batch (s_db s) txns = Some (s_db s', rss) /\ ob = [OExec (map fst txns) (Some rss) (s_db s')]) \/
                   (exec_batch (s_db s) txns = None /\ s_db s' = s_db s /\ ob = [OExec (map fst txns) None (s_db s)])).
 Proof.
